@@ -58,6 +58,7 @@ def run(ctx):
             if rnd.random() < 0.3:
                 cases.append({'op': 'construct', 'lang': lg, 'f': f, 'style': 'raw'})
                 cases.append({'op': 'construct', 'lang': lg, 'f': f, 'style': 'ops'})
+                cases.append({'op': 'construct', 'lang': lg, 'f': f, 'style': rnd.choice(['strsub', 'rewrap'])})
             if f[0] not in ('ap', 'true', 'false'):
                 for sl in LANGN:
                     if sl != lg and rnd.random() < (0.35 if q else 1.0):
